@@ -182,6 +182,9 @@ def check(run: Run, prog: Program, model: Model, tier: str) -> None:
 
 SU = "d42/substitution/_substitutor.py"
 MUTANTS = [
+    {"name": "substitution validator reads the length props through `or`", "rule": "PRE-VALIDATION",
+     "edits": [("d42/substitution/_validator.py", "        if schema.props.len is not Nil:\n            if len(value) != schema.props.len:\n                return result.add_error(LengthValidationError(path, value, schema.props.len))\n",
+                "        if schema.props.len:\n            if len(value) != schema.props.len:\n                return result.add_error(LengthValidationError(path, value, schema.props.len))\n")]},
     {"name": "body arm falls through again (F9 reverted)", "rule": "ELL-TYPESTATE",
      "edits": [(SU, "            raise SubstitutionError(f\"Can't substitute {value!r}\")\n\n        # head", "\n        # head")]},
     {"name": "empty-any guard removed (F10 reverted)", "rule": "ANY-NONEMPTY",
